@@ -31,6 +31,8 @@ LexPartial(a, b) == LexFrom(a, b, 1)
 CmpOK(r) ==
     LET p == LexPartial(r.a, r.b) IN
     /\ r.eq = EqSeq(r.a, r.b) /\ r.ne = ~EqSeq(r.a, r.b)
+    \* comparing an array with ITSELF (the same object) is no exception: not reflexive when an element is not
+    /\ r.self_eq = EqSeq(r.a, r.a) /\ r.sself_eq = r.self_eq /\ r.self_pcmp = LexPartial(r.a, r.a)
     /\ r.pcmp = p
     /\ r.lt = (p = -1) /\ r.le = (p \in {-1, 0}) /\ r.gt = (p = 1) /\ r.ge = (p \in {0, 1})
     /\ r.seq = r.eq /\ r.sne = r.ne /\ r.slt = r.lt /\ r.sle = r.le /\ r.sgt = r.gt /\ r.sge = r.ge
